@@ -43,7 +43,7 @@ From RX.Proofs Require Import CharTablesProofs RejectProofs WfParseTok WfParseCh
 From RX.Spec Require CstU CstText CstNs CstFull CstFullS5.
 From RX.Proofs Require CstSoundP CstSoundPRDoc CstSoundPRCor.
 From RX.Spec Require CstFullS4 CstFullS6.
-From RX.Proofs Require CstSound6P CstSound6 CstSound6U CstSound6uCor CstFullS6Main CstFullRejSem CstFullRejTrace CstFullRejDoc CstFullRejMain CstFullNsRejMain.
+From RX.Proofs Require KnownFindingsD21 CstSound6P CstSound6 CstSound6U CstSound6uCor CstFullS6Main CstFullRejSem CstFullRejTrace CstFullRejDoc CstFullRejMain CstFullNsRejMain.
 Open Scope N_scope.
 
 (* ---- Proofs/CharTablesProofs.v ---- *)
@@ -459,8 +459,38 @@ Print Assumptions C08_parse_sound_and_complete_6u.
 
 End G16.
 
-(* ---- Proofs/NsRejMain.v ---- *)
+(* ---- Proofs/KnownFindingsD21.v ---- *)
 Module G17.
+Import RX.Spec.CstNs. Import RX.Proofs.NsRejDefs. Import RX.Proofs.NsRejBuild. Import RX.Proofs.NsRejMain. Import RX.Proofs.KnownFindingsD21.
+Theorem C08_d21_refuted :
+  exists (c : doc) (d : document),
+    render c = d21_text /\ dup_decl c = true /\ parse (render c) default_options = Ok d.
+Proof. exact d21_refuted. Qed.
+Print Assumptions C08_d21_refuted.
+
+Theorem C08_d21_wf_for_spec :
+  d21_class d21_doc = true /\ wf_doc d21_doc = true /\ first_violation d21_doc = None.
+Proof. exact d21_wf_for_spec. Qed.
+Print Assumptions C08_d21_wf_for_spec.
+
+Theorem C08_d21_outside_class :
+  forall (c : doc) (opt : options),
+  wf_syntax_ns c = true -> dup_decl_outside_xml c = true -> fits c opt ->
+  exists e, parse (render c) opt = Err e /\ is_ns_error e = true.
+Proof. exact d21_outside_class. Qed.
+Print Assumptions C08_d21_outside_class.
+
+Theorem C08_d21_outside_class_variant :
+  forall (c : doc) (opt : options) (p : bytes),
+  wf_syntax_ns c = true -> first_violation c = Some (DupPrefix p) -> fits c opt ->
+  dup_decl_outside_xml c = true /\ exists tp, parse (render c) opt = Err (DuplicatedNamespace p tp).
+Proof. exact d21_outside_class_variant. Qed.
+Print Assumptions C08_d21_outside_class_variant.
+
+End G17.
+
+(* ---- Proofs/NsRejMain.v ---- *)
+Module G18.
 Import CstNs.
 Theorem C08_ns_violation_rejected :
   forall (c : doc) (opt : options),
@@ -473,10 +503,10 @@ Theorem C08_ns_violation_rejected :
 Proof. exact ns_violation_rejected. Qed.
 Print Assumptions C08_ns_violation_rejected.
 
-End G17.
+End G18.
 
 (* ---- Proofs/CstFullNsRejMain.v ---- *)
-Module G18.
+Module G19.
 Import RX.Spec.CstFull. Import RX.Spec.CstFullS4. Import RX.Spec.CstFullS6. Import RX.Proofs.CstNsView. Import RX.Proofs.CstFullS6Main. Import RX.Proofs.NsRejDefs. Import RX.Proofs.NsRejBuild. Import RX.Proofs.CstFullRejSem. Import RX.Proofs.CstFullRejTrace. Import RX.Proofs.CstFullRejDoc. Import RX.Proofs.CstFullRejMain. Import RX.Proofs.CstFullNsRejMain.
 Theorem C08_ns_violation_rejected_full_s6 :
   forall (d : S6.doc) (opt : options) (cT : CstFull.doc bpieces) (tr : list Detector.lop),
@@ -495,4 +525,4 @@ Theorem C08_ns_violation_rejected_full_s6 :
 Proof. exact ns_violation_rejected_full_s6. Qed.
 Print Assumptions C08_ns_violation_rejected_full_s6.
 
-End G18.
+End G19.
